@@ -107,6 +107,20 @@ type kvbatchOperator struct {
 	batching        bool
 	dupCheckMap     map[string]bool
 	kvsm            *kvStoreSM
+	// the commands of the current batch, kept so that they can be applied again one by one
+	// if a later command of the batch fails and the shared write batch has to be dropped
+	batchCmds []batchedCmd
+}
+
+type batchedCmd struct {
+	reqID uint64
+	name  string
+	cmd   redcon.Command
+	ts    int64
+}
+
+func (bo *kvbatchOperator) addBatchedCmd(reqID uint64, name string, cmd redcon.Command, ts int64) {
+	bo.batchCmds = append(bo.batchCmds, batchedCmd{reqID: reqID, name: name, cmd: cmd, ts: ts})
 }
 
 func (bo *kvbatchOperator) SetBatched(b bool) {
@@ -160,14 +174,31 @@ func (bo *kvbatchOperator) AbortBatchForError(err error) {
 	}
 	bo.SetBatched(false)
 	batchCost := time.Since(bo.batchStart)
-	// write the future response or error
-	for _, rid := range bo.batchReqIDList {
+	// The commands batched before the failing one did not fail, but their writes were in the
+	// shared write batch that had to be dropped. A replica that got the same entries in other
+	// apply batches keeps them, so they must not be lost here: apply them again one by one
+	// (nothing of them reached the db yet) and answer each with its own result.
+	for i, rid := range bo.batchReqIDList {
+		if i < len(bo.batchCmds) && bo.batchCmds[i].reqID == rid {
+			bc := bo.batchCmds[i]
+			if h, ok := bo.kvsm.router.GetInternalCmdHandler(bc.name); ok {
+				v, herr := h(bc.cmd, bc.ts)
+				if herr != nil {
+					bo.kvsm.store.AbortBatch()
+					bo.kvsm.w.Trigger(rid, herr)
+				} else {
+					bo.kvsm.w.Trigger(rid, v)
+				}
+				continue
+			}
+		}
 		bo.kvsm.w.Trigger(rid, err)
 	}
 	slow.LogSlowDBWrite(batchCost, slow.NewSlowLogInfo(bo.kvsm.fullNS, "batched", strconv.Itoa(len(bo.batchReqIDList))))
 	bo.dupCheckMap = make(map[string]bool)
 	bo.batchReqIDList = bo.batchReqIDList[:0]
 	bo.batchReqRspList = bo.batchReqRspList[:0]
+	bo.batchCmds = bo.batchCmds[:0]
 }
 
 func (bo *kvbatchOperator) CommitBatch() {
@@ -212,6 +243,7 @@ func (bo *kvbatchOperator) CommitBatch() {
 	}
 	bo.batchReqIDList = bo.batchReqIDList[:0]
 	bo.batchReqRspList = bo.batchReqRspList[:0]
+	bo.batchCmds = bo.batchCmds[:0]
 }
 
 type emptySM struct {
@@ -790,6 +822,9 @@ func (kvsm *kvStoreSM) ApplyRaftRequest(isReplaying bool, batch IBatchOperator, 
 						}
 						if batch.IsBatched() {
 							batch.AddBatchRsp(reqID, v)
+							if kbo, ok := batch.(*kvbatchOperator); ok {
+								kbo.addBatchedCmd(reqID, cmdName, cmd, reqTs)
+							}
 							if nodeLog.Level() > common.LOG_DETAIL {
 								kvsm.Infof("batching write command:%v, %v", cmdName, string(cmd.Raw))
 							}
